@@ -89,7 +89,7 @@ class LoopCheck(Check):
             n_without = len(names) - len(defaults)
             if "beta_tolerance" not in names:
                 raise core.HarnessError("missing SMCSampler.sample(beta_tolerance=...)")
-            defaults[names.index("beta_tolerance") - n_without] = 0.25
+            defaults[names.index("beta_tolerance") - n_without] = cfg.get("tol", 0.25)
             fn.__defaults__ = tuple(defaults)
             tmp = None
             try:
@@ -161,7 +161,7 @@ class LoopCheck(Check):
             return
         LR._install()
         try:
-            with LR._Tolerance():
+            with LR._Tolerance(cfg.get("tol", 0.25)):
                 world = LR.World(cex, model).build().run()
         finally:
             from harness import smc_loop
@@ -191,7 +191,7 @@ class LoopCheck(Check):
             return
         loop_checks.check_run(ctx, ref, P - {"C11"})
         ctx.prove(len(ref.checkpoints) >= 1, "c11/has_checkpoints")
-        routes = cfg.get("routes", ["bytes"])
+        routes = cfg.get("routes", ["bytes", "live_dict"])
         for k, ck in enumerate(ref.checkpoints):
             for route in routes:
                 if route == "file":
